@@ -11,7 +11,7 @@
    C19_conf_aligned_refuted, C19_known_only_refuted). *)
 From Coq Require Import List ZArith NArith Bool String Permutation.
 Import ListNotations.
-From SygmaV Require Import Model.C05 Proofs.C05 Model.C19 Proofs.C19 Gen.C05_Wiring.
+From SygmaV Require Import Model.C05 Proofs.C05 Model.C19 Proofs.C19 Proofs.C19_Hist Gen.C05_Wiring.
 Local Open Scope Z_scope.
 
 (* Every range any handler is ever given is a cell [k*i, k*i + i - 1] of the partition determined by
@@ -252,6 +252,91 @@ Theorem C19_evm_skip_failed_lookup_refuted :
 Proof. exact skip_evm_exec_refuted. Qed.
 Print Assumptions C19_evm_skip_failed_lookup_refuted.
 
+(* ---- long-lived executor objects and node latency ----------------------------------------------------------- *)
+
+(* Identifiers do not depend on what the long-lived objects did before.  A relayer that has been running
+   for a long time executes every delivery - and, after retries, the same delivery again - on ONE executor
+   object; a relayer restarted in between on a new one.  The judge of the history cases ([fresh] = per
+   delivery what the restarted relayer started, [steps] = per step of the long-running relayer's history the
+   delivery and what it started): whatever the long-running relayer starts at any step, the restarted relayer
+   starts for that delivery - same members, same order, same identifier. *)
+Theorem C19_history_judge_sound_sessions : forall fresh steps,
+  hist_ok sess1_eqb fresh steps = true ->
+  forall i obs s, In (i, obs) steps -> In s obs -> exists f, nth_error fresh i = Some f /\ In s f.
+Proof. exact (fun fresh steps => hist_ok_sound sess1_eqb fresh steps (fun a b H => proj1 (sess1_eqb_eq a b) H)). Qed.
+Print Assumptions C19_history_judge_sound_sessions.
+
+Theorem C19_history_judge_sound_groups : forall fresh steps,
+  hist_ok bgroup1_eqb fresh steps = true ->
+  forall i obs g, In (i, obs) steps -> In g obs -> exists f, nth_error fresh i = Some f /\ In g f.
+Proof. exact (fun fresh steps => hist_ok_sound bgroup1_eqb fresh steps (fun a b H => proj1 (bgroup1_eqb_eq a b) H)). Qed.
+Print Assumptions C19_history_judge_sound_groups.
+
+(* ... so at any two steps that concern the same delivery a member list is signed under the same session id
+   (whenever the restarted relayer signs no member list under two ids) *)
+Theorem C19_history_same_delivery_same_id : forall fresh steps i o1 o2 m s1 s2 f,
+  hist_ok sess1_eqb fresh steps = true ->
+  In (i, o1) steps -> In (i, o2) steps -> In (m, s1) o1 -> In (m, s2) o2 ->
+  nth_error fresh i = Some f ->
+  (forall a b, In a f -> In b f -> fst a = fst b -> a = b) ->
+  s1 = s2.
+Proof. exact hist_ok_same_id. Qed.
+Print Assumptions C19_history_same_delivery_same_id.
+
+(* the judge accepts every executor whose Execute is a function of the delivery (the three executors as
+   modelled: [evm_exec], [sub_exec], [btc_exec]), for ANY deliveries and ANY history *)
+Theorem C19_history_judge_accepts_model_evm : forall cap tg (dels : list (string * list (N * option N * bool))) seq,
+  let f := fun d : string * list (N * option N * bool) => evm_exec (fst d) cap tg (mark (snd d) []) in
+  hist_ok sess1_eqb (map f dels) (run_history f dels seq) = true.
+Proof. exact (fun cap tg dels seq => hist_ok_model sess1_eqb _ dels seq (fun a => proj2 (sess1_eqb_eq a a) eq_refl)). Qed.
+Print Assumptions C19_history_judge_accepts_model_evm.
+
+Theorem C19_history_judge_accepts_model_substrate : forall (dels : list (string * list (N * bool))) seq,
+  let f := fun d : string * list (N * bool) => sub_exec (fst d) (mark (snd d) []) in
+  hist_ok sess1_eqb (map f dels) (run_history f dels seq) = true.
+Proof. exact (fun dels seq => hist_ok_model sess1_eqb _ dels seq (fun a => proj2 (sess1_eqb_eq a a) eq_refl)). Qed.
+Print Assumptions C19_history_judge_accepts_model_substrate.
+
+Theorem C19_history_judge_accepts_model_btc : forall (dels : list (list (N * N * bool))) seq,
+  let f := fun d : list (N * N * bool) => btc_exec (mark d []) in
+  hist_ok bgroup1_eqb (map f dels) (run_history f dels seq) = true.
+Proof. exact (fun dels seq => hist_ok_model bgroup1_eqb _ dels seq (fun a => proj2 (bgroup1_eqb_eq a a) eq_refl)). Qed.
+Print Assumptions C19_history_judge_accepts_model_btc.
+
+(* An executor that counts the starts of a session id per object and appends -<n> from the second start on
+   (NOT the code): the second time a long-running relayer is handed the retried delivery it signs under
+   another id than its restarted peer. *)
+Theorem C19_counted_sessions_refuted :
+  exists mid cap tg (d : list (N * option N * bool)) seq,
+    let f := fun d => evm_exec mid cap tg (mark d []) in
+    hist_ok sess1_eqb (map f [d]) (run_history f [d] seq) = true /\
+    hist_ok sess1_eqb (map f [d]) (counted_history f [d] [] seq) = false.
+Proof. exact counted_sessions_refuted. Qed.
+Print Assumptions C19_counted_sessions_refuted.
+
+(* The order of what is signed does not depend on the latency of the node: the executors ask one look-up
+   after the other and append in delivery order ([pending_of] has no latency parameter), so any number of
+   relayers with any latencies do what the latency-free relayer does and the judge of the latency cases (the
+   faulty-relayer judge: ordered member list -> session id) accepts them; *)
+Theorem C19_latency_judge_accepts_model : forall ref n, faulty_ok sess1_eqb ref (repeat ref n) = true.
+Proof. exact (fun ref n => faulty_ok_repeat sess1_eqb ref n (fun a => proj2 (sess1_eqb_eq a a) eq_refl)). Qed.
+Print Assumptions C19_latency_judge_accepts_model.
+
+(* look-ups asked side by side whose pending proposals are appended as the answers arrive (NOT the code) are
+   the code exactly when the answers arrive in delivery order ... *)
+Theorem C19_completion_in_delivery_order_is_code : forall (ps : list (@looked N)),
+  completion_pending ps (seq 0 (List.length ps)) = pending_of ps.
+Proof. exact completion_pending_delivery_order. Qed.
+Print Assumptions C19_completion_in_delivery_order_is_code.
+
+(* ... and sign another list under the same session id otherwise *)
+Theorem C19_completion_order_refuted :
+  exists mid (d : list (N * bool)) order,
+    Permutation order (seq 0 (List.length d)) /\
+    faulty_ok sess1_eqb (sub_exec mid (mark d [])) [sub_exec_completion mid (mark d []) order] = false.
+Proof. exact completion_order_refuted. Qed.
+Print Assumptions C19_completion_order_refuted.
+
 (* Retry paths (EVM RetryV1EventHandler, Substrate RetryEventHandler): the group sent for destination d is
    the not yet executed deposits for d of the first retry event of the range, then those of the second, ...:
    chain (log) order of the events and, inside an event, of its deposits - no trace of a map's iteration
@@ -351,7 +436,14 @@ Example C19_nonvacuous :
   conc_ok [[("1-2-840000"%string, 2%N, [1%N; 2%N])]] [[[("1-2-840000"%string, 2%N, [1%N; 2%N])]]] = true /\
   (* a nonce derived from an interleaved hasher (unknown: 0), or a dropped deposit *)
   conc_ok [[("1-2-840000"%string, 2%N, [1%N; 2%N])]] [[[("1-2-840000"%string, 2%N, [1%N; 0%N])]]] = false /\
-  conc_ok [[("1-2-840000"%string, 2%N, [1%N; 2%N])]] [[[("1-2-840000"%string, 2%N, [1%N])]]] = false.
+  conc_ok [[("1-2-840000"%string, 2%N, [1%N; 2%N])]] [[[("1-2-840000"%string, 2%N, [1%N])]]] = false /\
+  (* a block retried twice: the long-running relayer executes the delivery a second time *)
+  hist_ok sess1_eqb [[([1%N; 2%N], ["1-2-101-101-0"%string])]]
+          [(0%nat, [([1%N; 2%N], ["1-2-101-101-0"%string])]); (0%nat, [([1%N; 2%N], ["1-2-101-101-0"%string])])] = true /\
+  hist_ok sess1_eqb [[([1%N; 2%N], ["1-2-101-101-0"%string])]]
+          [(0%nat, [([1%N; 2%N], ["1-2-101-101-0"%string])]); (0%nat, [([1%N; 2%N], ["1-2-101-101-0-1"%string])])] = false /\
+  (* a relayer whose node answers late signs the pending proposals in delivery order, not in answer order *)
+  faulty_ok sess1_eqb [([10%N; 11%N; 13%N], ["1-3-100-104"%string])] [[([13%N; 11%N; 10%N], ["1-3-100-104"%string])]] = false.
 Proof.
   cbv zeta. split; [reflexivity|]. split; [right; reflexivity|]. split; [right; reflexivity|].
   split; [vm_compute; auto 20|]. split; [vm_compute; auto 20|].
